@@ -89,7 +89,7 @@ def run(tier, seed):
         core.validate_and_report(chk, BASE, OBS, ACTIONS, batch, trace_cfg(p2), ['Fresh', 'UniqueIds', 'NoGhostDelivery', 'NoDead'],
                                  'c14', p2, 'random %d clients' % nclients, nproc=8)
     chk.sample({'recorded': [a for a, s in batch[0]][:6]})
-    tr = [list(x) for x in batch[0]]
+    tr = [list(x) for x in rerecord(p2, [('Hello', (1,)), ('Hello', (2,)), ('Send', (1, ('u', 2), 'call', True))])]
     done = False
     for j, (a, st) in enumerate(tr):
         for k, o in enumerate(st['out']):
@@ -105,7 +105,7 @@ def run(tier, seed):
         if done:
             break
     rej, _ = core.validate_traces(BASE, OBS, [[tuple(x) for x in tr]], ACTIONS, cfg_consts=trace_cfg(p2), nproc=1)
-    chk.canary = {'what': 'sender of one forwarded message changed in a recorded history', 'rejected': bool(rej) or not done}
+    chk.canary = {'what': 'sender of one forwarded message changed in a recorded history', 'rejected': bool(rej) and done}
     chk.assumptions = ['the delivery interleaving of the bus is the order in which it reads the connections: one action per message read',
                        'messages carrying file descriptors are not routed through the built-in bus (outside the quantifier)',
                        'a broadcast is compared copy for copy (one per matching rule held), which is stronger than the set of '
